@@ -8,6 +8,7 @@
 -/
 import Dirk.Lemmas.Run
 import Dirk.Spec.Slashing
+import Dirk.Props.KernelsEq
 
 namespace Dirk
 open Spec
@@ -48,5 +49,13 @@ theorem C02_fixed_refuses : (onPropose [] [7] ⟨domProposer, two63⟩ {}).1 = .
 example : (onPropose [] [7] ⟨domProposer, 5⟩ {}).1 = .approved := by decide
 example : (onPropose (onPropose [] [7] ⟨domProposer, 5⟩ {}).2 [7] ⟨domProposer, 6⟩ {}).1 = .approved := by decide
 example : (onPropose (onPropose [] [7] ⟨domProposer, 5⟩ {}).2 [7] ⟨domProposer, 5⟩ {}).1 = .denied := by decide
+
+/-- **tie by translation.** `onPropose` is, for all stores, keys, requests and fault plans, the function `factx`
+    translates from the current Go source of `OnSignBeaconProposal` (domain check, MaxInt64 guard, fetch,
+    comparison with the stored slot, store), applied to the model's store. -/
+theorem C02_kernel_is_source (db : Db) (pk : Bytes) (r : PropReq) (f : Faults) :
+    onPropose db pk r f =
+      propApply db pk f (Gen.propChecksGen r.domain r.slot (fetchProp db pk (f.fetchFail.contains 0)) (!f.storeFail)) :=
+  onPropose_eq_gen db pk r f
 
 end Dirk
